@@ -103,8 +103,23 @@ class Angles:
         self.theta_hat = tree.func(f"{ANG}::formulate_theta_hat_angle")
         self.theta = tree.func(f"{ANG}::formulate_scattering_angle")
 
+    def accepts(self, fn, *idx) -> bool:
+        """The function returns an expression for these constant indices (False: it raises).  `Returns` is only
+        concluded if every guard clause on the way was decided: a guard whose test the evaluator cannot decide for
+        constants is a shape it does not read, not a guard that lets the indices pass."""
+        self.te.skipped_guards.clear()
+        try:
+            self.call(fn, *idx)
+        except RaisedError:
+            return False
+        if self.te.skipped_guards:
+            raise AnalysisError(f"{fn.qual}{idx}: the guard {self.te.skipped_guards[0]} is not decidable for constant indices: whether the function rejects them cannot be judged")
+        return True
+
     def call(self, fn, *idx):
         val = self.te.eval_function(fn, [RF.const(i) for i in idx])
+        if self.te.record_of(val) is not None:  # a NamedTuple (symbol, expression)
+            val = Tup(self.te._sequence(val, f"{fn.qual}{idx}"))
         if not (isinstance(val, Tup) and len(val.items) == 2):
             raise ExtractionError(f"{fn.qual}{idx}: does not return (symbol, expression)")
         return val.items[0], self.te._rf(val.items[1])
@@ -130,6 +145,17 @@ class Angles:
 
     def unfolded(self, v: RF) -> RF:
         return self.te.unfold(v, {"Kallen"})
+
+    def demand_understood(self, fn, what: str, v: RF) -> None:
+        """Before a formula is reported as different from its specification: it must consist of symbols and radicals
+        only.  A leftover application / attribute / item atom is something the evaluator did not read (an object of an
+        unknown class, a callable it could not apply): then the verdict is `cannot decide`, not `wrong`."""
+        from ..terms import deep_atoms
+
+        read = lambda a: a[0] == "sqrt" or (a[0] == "app" and a in self.te.apps and (self.te.apps[a].cls in {"acos", "atan2"} or self.te.apps[a].cls.endswith("::Kallen")))  # noqa: E731
+        unread = [a for a in deep_atoms(self.te, v) if isinstance(a, tuple) and a and not read(a)]
+        if unread:
+            raise AnalysisError(f"{fn.qual}: {what} contains `{unread[0]!r:.80}`, which is not read as a symbol: the formula cannot be compared with its geometric definition")
 
     def cos_or_report(self, ctx, tree, fn, key: str, expr: RF):
         """cos_of, but an angle computed with a wrong inverse function is reported as a violation."""
@@ -179,45 +205,153 @@ def _subst_atom_deep(v: RF, atom: str, repl: RF) -> RF:
 SHAPES = [(i, j, k) for i in (0, 1, 2, 3) for j in (1, 2, 3) for k in (1, 2, 3)] + [(i, j, 0) for i in (1, 2, 3) for j in (1, 2, 3)]
 
 
-def table_rows(A: Angles, fn, domain) -> list[tuple[ast.If, set]]:
-    """The rows of a case table and, per row, the index tuples of ``domain`` that satisfy its test.
+class Table:
+    """The rows of a case table: per row the index tuples (of the PUBLIC call) that its test accepts, the first row
+    that accepts each tuple, and the index values the row itself saw (they differ from the call's when the indices were
+    re-bound or handed to a helper in another order)."""
 
-    A row is an ``if`` of the top-level chain of the function (``elif`` links included).  Its test is
-    decided for every index tuple by constant propagation, with the straight-line statements in front
-    of it evaluated first - so a test may be spelt ``(i, j, k) == (1, 1, 3)``, ``case == (1, 1, 3)`` for a
-    local ``case = (i, j, k)``, ``case in {...}``, ``{i, j, k} == {1, 2, 3}`` ...  Every test is judged in
-    isolation (as if no earlier row had returned): that is what makes an overlap visible.  A test that is
-    not decidable over the indices is an analysis error."""
+    def __init__(self) -> None:
+        self.rows: dict[int, tuple[ast.If, set]] = {}
+        self.order: list[int] = []
+        self.first: dict[tuple, int] = {}
+        self.seen: dict[int, dict[tuple, tuple]] = {}
+
+    def record(self, node: ast.If, fires: bool, idx: tuple, values: tuple) -> None:
+        if id(node) not in self.rows:
+            self.rows[id(node)] = (node, set())
+            self.order.append(id(node))
+            self.seen[id(node)] = {}
+        if fires:
+            self.rows[id(node)][1].add(idx)
+            self.first.setdefault(idx, id(node))
+            self.seen[id(node)][idx] = values
+
+    def __iter__(self):
+        return iter([self.rows[i] for i in self.order])
+
+
+def _terminates(block: list) -> bool:
+    """Every path through the block ends in a return / raise."""
+    if not block:
+        return False
+    last = block[-1]
+    if isinstance(last, (ast.Return, ast.Raise)):
+        return True
+    return isinstance(last, ast.If) and _terminates(last.body) and _terminates(last.orelse)
+
+
+def _unconditional_calls(node: ast.AST):
+    """The calls that are evaluated whenever the statement / expression is (not those inside a lambda, a
+    comprehension, the arms of a conditional expression or the later operands of and / or)."""
+    todo = [node]
+    while todo:
+        n = todo.pop()
+        if isinstance(n, (ast.Lambda, ast.GeneratorExp, ast.ListComp, ast.SetComp, ast.DictComp, ast.FunctionDef, ast.ClassDef)):
+            continue
+        if isinstance(n, ast.IfExp):
+            todo.append(n.test)
+            continue
+        if isinstance(n, ast.BoolOp):
+            todo.append(n.values[0])
+            continue
+        if isinstance(n, ast.Call):
+            yield n
+        todo.extend(ast.iter_child_nodes(n))
+
+
+def table_rows(A: Angles, fn, domain) -> Table:
+    """The rows of the case analysis that a function performs on its constant indices.
+
+    A row is an ``if`` whose body always returns / raises and contains no further ``if`` (a body with further ``if``s is
+    a nested table: its leaves are the rows), and the ``return`` behind the rows of a table (its ``else`` row, which
+    accepts what no row in front of it accepted).  The rows are looked for where the case analysis is executed, whatever
+    function holds it: in the body of ``fn`` and in the body of every package function that a statement outside the
+    rows calls (``return _formulate_zeta_expression(i, j, k)``: the helper's table, with the parameters bound as the
+    call binds them).  Every test is decided by constant propagation for every index tuple, with the statements in front
+    of it evaluated first - so a test may be spelt ``(i, j, k) == (1, 1, 3)``, ``case == (1, 1, 3)`` for a local
+    ``case = (i, j, k)``, ``case in {...}``, ``{i, j, k} == {1, 2, 3}`` ...; an ``if`` that falls through (``if k == 0: k = i``)
+    is executed, not a row.  Every row is judged in isolation (as if no earlier row had returned): that is what makes an
+    overlap visible.  A test that is not decidable over the indices is an analysis error."""
     te = A.te
-    rows: dict[int, tuple[ast.If, set]] = {}
-    order: list[int] = []
-    for idx in domain:
-        env = te.bind_params(fn, [RF.const(i) for i in idx], {})
-        for st in fn.node.body:
-            if isinstance(st, ast.If):
-                link = st
-                while True:
-                    try:
-                        fires = te.const(link.test, env, fn)
-                    except TermEval.NotConst:
-                        raise AnalysisError(f"{fn.qual}: the test `{unparse(link.test)[:60]}` of the case table is not decidable over constant indices") from None
-                    if id(link) not in rows:
-                        rows[id(link)] = (link, set())
-                        order.append(id(link))
-                    if fires:
-                        rows[id(link)][1].add(idx)
-                    if len(link.orelse) == 1 and isinstance(link.orelse[0], ast.If):
-                        link = link.orelse[0]
-                    else:
-                        break
+    tree = A.tree
+    table = Table()
+
+    def decide(test, env, g) -> bool:
+        try:
+            return bool(te.const(test, env, g))
+        except TermEval.NotConst:
+            raise AnalysisError(f"{g.qual}: the test `{unparse(test)[:60]}` of the case table is not decidable over constant indices") from None
+
+    def values(env, g) -> tuple:
+        out = []
+        for p in g.params:
+            v = env.get(p)
+            if isinstance(v, RF) and v.is_const() and v.const_value().denominator == 1:
+                out.append(int(v.const_value()))
+        return tuple(out)
+
+    def follow(node, env, g, idx, stack) -> None:
+        for call in _unconditional_calls(node):
+            target = tree.funcs.get(tree.resolve(g.module, call.func, g) or "")
+            if target is None or target.qual in stack or not any(isinstance(n, ast.If) for n in walk_function(target.node)):
                 continue
-            if isinstance(st, (ast.Return, ast.Raise)):
-                break
             try:
-                te.eval_body([st], env, fn)
+                args, kwargs = te._args(call, env, g, 0)
+                if target.cls is not None and target.outer is None and "self" in env and target.params[:1] == ["self"]:
+                    args = [env["self"], *args]
+                cenv = te.bind_params(target, args, kwargs)
+            except ExtractionError as exc:
+                raise AnalysisError(f"{g.qual}: the arguments of `{unparse(call)[:60]}` cannot be bound for the indices {idx}: {exc}") from None
+            if target.outer is not None:
+                cenv = {**env, **cenv}
+            scan(target.node.body, cenv, target, idx, stack | {target.qual}, [0, False])
+
+    def scan(block, env, g, idx, stack, state) -> bool:
+        """True: the block has returned / raised for these indices.  ``state`` = [rows met, a row fired] of the table
+        this block belongs to."""
+        for st in block:
+            if isinstance(st, ast.If):
+                fires = decide(st.test, env, g)
+                if _terminates(st.body):
+                    if any(isinstance(n, ast.If) for s_ in st.body for n in ast.walk(s_)):
+                        inner = [0, False]
+                        if fires:
+                            scan(st.body, dict(env), g, idx, stack, inner)
+                        state[0] += 1
+                        state[1] = state[1] or inner[1]
+                    else:
+                        table.record(st, fires, idx, values(env, g))
+                        state[0] += 1
+                        state[1] = state[1] or fires
+                    # in isolation: go on as if the row had not returned
+                    if st.orelse and scan(st.orelse, env, g, idx, stack, state):
+                        return True
+                    continue
+                if scan(st.body if fires else st.orelse, env, g, idx, stack, state):
+                    return True
+                continue
+            if isinstance(st, ast.Raise):
+                return True
+            if isinstance(st, ast.Return):
+                if st.value is not None:
+                    follow(st.value, env, g, idx, stack)
+                if state[0]:
+                    # the `return` behind the rows of a table is its `else` row: it accepts what no row before it accepted
+                    table.record(st, not state[1], idx, values(env, g))
+                    state[1] = True
+                return True
+            follow(st, env, g, idx, stack)
+            try:
+                te.eval_body([st], env, g)
             except NoReturn:
                 pass
-    return [rows[i] for i in order]
+            except RaisedError:
+                return True  # the function raises here for these indices: no later row is reached
+        return False
+
+    for idx in domain:
+        scan(fn.node.body, te.bind_params(fn, [RF.const(i) for i in idx], {}), fn, idx, frozenset({fn.qual}), [0, False])
+    return table
 
 
 def check_tables(ctx: Check, tree: Tree, A: Angles) -> None:
@@ -226,6 +360,8 @@ def check_tables(ctx: Check, tree: Tree, A: Angles) -> None:
     diagonal = {t for t in universe if t[1] == t[2]}
     everything = set(itertools.product((0, 1, 2, 3, 4), repeat=3))
     rows = table_rows(A, fn, sorted(everything))
+    if not rows.order:
+        raise AnalysisError(f"{fn.qual}: no case table (an `if` over the constant indices whose body returns) is found in the function or in a helper it calls for every index triple: the partition cannot be read off")
     table = [(node, fires & universe, fires - universe) for node, fires in rows if fires & universe]
     problems = []
     hits: dict[tuple, int] = {}
@@ -249,12 +385,10 @@ def check_tables(ctx: Check, tree: Tree, A: Angles) -> None:
         problems.append(f"not covered: {uncovered}")
     # ids outside {1,2,3}: a row of the table (not the `aligned == reference` rule, not the state-0 / reference-0
     # delegations in front of it) must not be the first one to accept a foreign triple
-    first: dict[tuple, int] = {}
-    for n_, (_, fires) in enumerate(rows):
-        for t in fires:
-            first.setdefault(t, n_)
-    position = {id(node): n_ for n_, (node, _) in enumerate(rows)}
-    foreign = sorted(t for node, inside, outside in table if not inside <= diagonal for t in outside if first[t] == position[id(node)])
+    # (a triple is foreign to a row if the index values the row itself sees - after a re-binding such as
+    # `reference := rotated_state`, or as parameters of a helper - are not all in {1,2,3})
+    foreign = sorted(t for node, inside, outside in table if not inside <= diagonal for t in outside
+                     if rows.first[t] == id(node) and not set(rows.seen[id(node)][t]) <= {1, 2, 3})
     if foreign:
         problems.append(f"outside the domain: {foreign}")
     listed = [inside for _, inside, _ in table if not inside <= diagonal]
@@ -283,23 +417,11 @@ def check_tables(ctx: Check, tree: Tree, A: Angles) -> None:
         except RaisedError as exc:
             fails.append(f"({i},{j}): {exc}")
     ctx.verdict(not fails, "R-TABLE", f"{th.qual}::exhaustive", tree.loc(th.node), "formulate_theta_hat_angle returns an expression for all 9 index pairs", fails or None)
-    bad_ids = []
-    for args in ((0, 1), (1, 4), (4, 4)):
-        try:
-            A.call(th, *args)
-            bad_ids.append(args)
-        except RaisedError:
-            pass
+    bad_ids = [args for args in ((0, 1), (1, 4), (4, 4)) if A.accepts(th, *args)]
     ctx.verdict(not bad_ids, "R-TABLE", f"{th.qual}::rejects-foreign-ids", tree.loc(th.node), "formulate_theta_hat_angle rejects ids outside {1,2,3}", bad_ids or None)
     sc = A.theta
-    ok_guard = True
-    for args in ((0, 1), (1, 4), (2, 2)):
-        try:
-            A.call(sc, *args)
-            ok_guard = False
-        except RaisedError:
-            pass
-    ctx.verdict(ok_guard, "R-TABLE", f"{sc.qual}::guards", tree.loc(sc.node), "formulate_scattering_angle rejects ids outside {1,2,3} and equal ids")
+    accepted = [args for args in ((0, 1), (1, 4), (2, 2)) if A.accepts(sc, *args)]
+    ctx.verdict(not accepted, "R-TABLE", f"{sc.qual}::guards", tree.loc(sc.node), "formulate_scattering_angle rejects ids outside {1,2,3} and equal ids", accepted or None)
     dead = [n_ for n_ in walk_function(sc.node) if isinstance(n_, ast.If) and isinstance(n_.test, ast.Compare) and isinstance(n_.test.left, ast.Set) and isinstance(n_.test.comparators[0], ast.Set)
             and all(isinstance(e, ast.Tuple) for e in n_.test.comparators[0].elts)]
     if dead:
@@ -315,16 +437,23 @@ def check_zeta_identities(ctx: Check, tree: Tree, A: Angles) -> dict:
     # zeta^i_{k(k)} = 0
     bad = [t for t in exprs if t[1] == t[2] and t[0] != 0 and not exprs[t].is_zero()]
     ctx.verdict(not bad, "R-TERM", f"{fn.qual}::zero-diagonal", where, "zeta^i_{k(k)} == 0 for all i, k", bad or None)
+    def same(a: RF, b: RF, what: str) -> bool:
+        if equal(a, b):
+            return True
+        A.demand_understood(fn, what, a)
+        A.demand_understood(fn, what, b)
+        return False
+
     # zeta^i_{k(0)} = zeta^i_{k(i)}
-    bad = [(i, j) for i in (1, 2, 3) for j in (1, 2, 3) if not equal(exprs[(i, j, 0)], exprs[(i, j, i)])]
+    bad = [(i, j) for i in (1, 2, 3) for j in (1, 2, 3) if not same(exprs[(i, j, 0)], exprs[(i, j, i)], f"zeta^{i}_{j}(0) / zeta^{i}_{j}({i})")]
     ctx.verdict(not bad, "R-TERM", f"{fn.qual}::reference-zero", where, "zeta^i_{k(0)} == zeta^i_{k(i)} for all i, k", bad or None)
     # antisymmetry
-    bad = [(i, j, k) for i in (1, 2, 3) for j in (1, 2, 3) for k in (1, 2, 3) if j < k and not equal(exprs[(i, j, k)], -exprs[(i, k, j)])]
+    bad = [(i, j, k) for i in (1, 2, 3) for j in (1, 2, 3) for k in (1, 2, 3) if j < k and not same(exprs[(i, j, k)], -exprs[(i, k, j)], f"zeta^{i}_{j}({k}) / zeta^{i}_{k}({j})")]
     ctx.verdict(not bad, "R-TERM", f"{fn.qual}::antisymmetric", where, "zeta^i_{j(k)} == -zeta^i_{k(j)} for all i and j != k", bad or None)
     # rotated state 0: theta hat
     bad = []
     for j, k in itertools.product((1, 2, 3), repeat=2):
-        if not equal(exprs[(0, j, k)], A.call(A.theta_hat, j, k)[1]):
+        if not same(exprs[(0, j, k)], A.call(A.theta_hat, j, k)[1], f"zeta^0_{j}({k}) / theta-hat_{j}({k})"):
             bad.append((j, k))
     ctx.verdict(not bad, "R-TERM", f"{fn.qual}::state-zero", where, "zeta^0_{j(k)} == theta-hat_{j(k)}", bad or None)
     return exprs
@@ -344,6 +473,8 @@ def check_zeta_geometry(ctx: Check, tree: Tree, A: Angles, exprs: dict) -> None:
         cosz = A.unfolded(cosz)
         want = cos_zeta_spec(i, j, k)
         ok = equal(cosz, want)
+        if not ok:
+            A.demand_understood(fn, f"cos zeta^{i}_{j}({k})", cosz)
         n += 1
         key = f"{fn.qual}::geometry::({i},{j},{k})"
         if sign > 0:  # report the rows that carry a formula of their own (the negated ones delegate)
@@ -370,6 +501,8 @@ def check_theta_hat(ctx: Check, tree: Tree, A: Angles) -> None:
         c = A.unfolded(c)
         want = cos_theta_hat_spec(i, j)
         ok = equal(c, want)
+        if not ok:
+            A.demand_understood(fn, f"cos theta-hat_{i}({j})", c)
         # orientation: theta-hat_{1(2)} + theta-hat_{2(3)} + theta-hat_{3(1)} = 2 pi (the three momenta
         # are coplanar and close a triangle) forces +acos for the three cyclic pairs, antisymmetry
         # then -acos for the anti-cyclic ones
@@ -396,10 +529,14 @@ def check_scattering(ctx: Check, tree: Tree, A: Angles) -> None:
         cosines[(i, j)] = c
         want = cos_theta_spec(i, j)
         ok = sign == 1 and equal(c, want)
+        if not ok:
+            A.demand_understood(fn, f"cos theta_{i}{j}", c)
         ctx.verdict(ok, "R-TERM", f"{fn.qual}::geometry::({i},{j})", tree.loc(fn.node),
                     f"cos theta_{i}{j} == cosine of the helicity angle of particle {i} in the ({i}{j}) rest frame (against the direction opposite to the spectator)",
                     None if ok else {"code": repr(c)[:160], "geometric": repr(want)[:160]})
         name = A.te.single_atom(A.te._rf(sym_)) if not isinstance(sym_, Opaque) else None
+        if not isinstance(name, str):
+            raise AnalysisError(f"{fn.qual}: the first element returned for ({i},{j}) is not read as a symbol ({sym_!r:.60}): its name cannot be judged")
         ctx.verdict(name == f"theta_{i}{j}", "R-TERM", f"{fn.qual}::symbol::({i},{j})", tree.loc(fn.node), f"the symbol returned for ({i},{j}) is theta_{i}{j}", None if name == f"theta_{i}{j}" else str(name))
     bad = [(i, j) for (i, j) in cosines if i < j and not (cosines[(i, j)] + cosines[(j, i)]).is_zero()]
     ctx.verdict(not bad, "R-TERM", f"{fn.qual}::supplementary", tree.loc(fn.node), "cos theta_ij + cos theta_ji == 0 (theta_ij + theta_ji = pi) modulo sigma1+sigma2+sigma3 = sum m^2", bad or None)
@@ -427,12 +564,57 @@ def check_covariance(ctx: Check, tree: Tree, A: Angles, exprs: dict) -> None:
                 f"zeta^(i+1)_(j+1)((k+1)) is the image of zeta^i_j(k) under the cyclic relabelling of masses and Mandelstam variables ({n} relations, signs included)", bad or None)
 
 
+GENERATOR_PARAMS = ("j", "m", "m_prime", "rotated_state", "aligned_subsystem")
+
+
+def zeta_consumers(tree: Tree, zeta_fn) -> list:
+    """The callables that produce the DPD Wigner-d of one outer state: every package function outside the angle module
+    that takes (j, m, m_prime, rotated_state, aligned_subsystem) and from which formulate_zeta_angle is reached - a
+    `__call__` of a generator class, a module function bound with functools.partial, a closure."""
+    graph = tree.call_graph()
+    found = []
+    for q, f in tree.funcs.items():
+        if f.module.name == ANG or not set(GENERATOR_PARAMS) <= set(f.params):
+            continue
+        if zeta_fn.qual in tree.reachable(q, graph):
+            found.append(f)
+    return found
+
+
+def _generator_self(te: TermEval, tree: Tree, consumer, reference: RF) -> dict:
+    """The abstract `self` of a generator method: the fields as `__init__` sets them when it is given the reference
+    subsystem (a field of any name that holds it, an empty dict of any name for the definitions)."""
+    default = {"reference_subsystem": reference, "angle_definitions": DictV([])}
+    init = tree.lookup_method(consumer.cls, "__init__") if consumer.cls is not None else None
+    if init is None:
+        return default
+    if "reference_subsystem" not in init.params:
+        raise AnalysisError(f"{init.qual}: parameter reference_subsystem vanished")
+    env = {p: RF.atom(f"<init {p}>") for p in init.params[1:]}
+    env["reference_subsystem"] = reference
+    struct: dict = {}
+    for st in init.node.body:
+        if isinstance(st, ast.Expr) and isinstance(st.value, ast.Constant):
+            continue
+        target = st.targets[0] if isinstance(st, ast.Assign) and len(st.targets) == 1 else st.target if isinstance(st, ast.AnnAssign) else None
+        if not (isinstance(target, ast.Attribute) and isinstance(target.value, ast.Name) and target.value.id == init.params[0] and getattr(st, "value", None) is not None):
+            raise AnalysisError(f"{init.qual}: `{unparse(st)[:60]}` is not a plain field assignment: the state of the generator cannot be read off")
+        struct[target.attr] = te.ev(st.value, env, init)
+    return struct
+
+
 def check_consumers(ctx: Check, tree: Tree) -> None:
     """The generator is evaluated symbolically (helper methods inlined, arguments bound by name): which
     arguments reach formulate_zeta_angle, which angle reaches Wigner.d, what is registered."""
-    gen = tree.cls("ampform.helicity.align.dpd::_DPDAlignmentWignerGenerator")
-    call = gen.methods.get("__call__")
     zeta_fn = tree.func(f"{ANG}::formulate_zeta_angle")
+    consumers = zeta_consumers(tree, zeta_fn)
+    if not consumers:
+        raise AnalysisError(f"vanished anchor: no function with the parameters {GENERATOR_PARAMS} reaches formulate_zeta_angle (formerly _DPDAlignmentWignerGenerator.__call__)")
+    for call in consumers:
+        _check_consumer(ctx, tree, zeta_fn, call)
+
+
+def _check_consumer(ctx: Check, tree: Tree, zeta_fn, call) -> None:
     te = TermEval(tree, inline_depth=6)
     requests: list[dict] = []
 
@@ -441,16 +623,29 @@ def check_consumers(ctx: Check, tree: Tree) -> None:
         return Tup([RF.atom(f"<zeta symbol #{len(requests)}>"), RF.atom(f"<zeta definition #{len(requests)}>")])
 
     te.overrides[zeta_fn.qual] = formulate
-    definitions = DictV([])
     spin = RF.const(7)  # a constant non-zero spin: the `j == 0 -> 1` shortcut is decided, not forked
     given = {"j": spin, "m": RF.atom("<m>"), "m_prime": RF.atom("<m_prime>"), "rotated_state": RF.atom("<rotated_state>"), "aligned_subsystem": RF.atom("<aligned_subsystem>")}
-    missing = [p for p in given if p not in call.params]
-    if missing:
-        raise AnalysisError(f"{call.qual}: parameters {missing} vanished")
-    env = {"self": {"reference_subsystem": RF.atom("<self.reference_subsystem>"), "angle_definitions": definitions}, **given}
+    reference = RF.atom("<reference_subsystem>")
+    is_method = call.cls is not None and call.outer is None and call.params[:1] == ["self"]
+    # the reference subsystem and the registry of definitions reach the callable as fields of `self`, as (keyword)
+    # parameters bound by functools.partial, or as variables of the enclosing function
+    env: dict = {"reference_subsystem": reference, "angle_definitions": DictV([])}
+    if is_method:
+        env["self"] = _generator_self(te, tree, call, reference)
+    a = call.node.args
+    positional = [*a.posonlyargs, *a.args]
+    defaults = {p.arg for p in positional[len(positional) - len(a.defaults):]} | {p.arg for p, d in zip(a.kwonlyargs, a.kw_defaults) if d is not None}
+    own = call.params[1 if is_method else 0:]
+    for p in own:
+        if p in given:
+            env[p] = given[p]
+        elif p not in env and p not in defaults:
+            raise AnalysisError(f"{call.qual}: parameter {p} has no known role (expected {GENERATOR_PARAMS}, reference_subsystem, angle_definitions)")
+    env.update(te.bind_params(call, [], {p: env[p] for p in own if p in env}, skip_first=is_method))
+    registries = [v for v in [*env.values(), *(env["self"].values() if is_method else [])] if isinstance(v, DictV)]
     result = te.eval_body(call.node.body, env, call)
     problems = []
-    want = {"rotated_state": given["rotated_state"], "aligned_subsystem": given["aligned_subsystem"], "reference_subsystem": env["self"]["reference_subsystem"]}
+    want = {"rotated_state": given["rotated_state"], "aligned_subsystem": given["aligned_subsystem"], "reference_subsystem": reference}
     if len(requests) != 1:
         problems.append(f"formulate_zeta_angle is called {len(requests)} times")
     else:
@@ -461,16 +656,18 @@ def check_consumers(ctx: Check, tree: Tree) -> None:
     symbol, definition = RF.atom("<zeta symbol #1>"), RF.atom("<zeta definition #1>")
     atom = te.single_atom(result) if isinstance(result, RF) else None
     info = te.apps.get(atom) if atom is not None and te.is_app(atom) else None
-    if info is None or info.cls != "d":
-        problems.append(f"the result is not one Wigner.d(...): {result!r:.80}")
-    else:
-        for name, value in {"j": spin, "m": given["m"], "mp": given["m_prime"], "beta": symbol}.items():
-            if name not in info.kwargs or vkey(info.kwargs[name]) != vkey(value):
-                problems.append(f"Wigner.d receives {name} = {info.kwargs.get(name)!r:.60}, expected {value!r}")
-    registered = [(vkey(k), vkey(v)) for k, v in definitions.items]
+    if info is None or info.cls not in {"d", "D"}:
+        raise AnalysisError(f"{call.qual}: the result is not read as one Wigner.d(...) application ({result!r:.80}): the wiring cannot be judged")
+    expected = {"j": spin, "m": given["m"], "mp": given["m_prime"], "beta": symbol}
+    if info.cls == "D":  # D^j_{m m'}(0, beta, 0) = d^j_{m m'}(beta)
+        expected.update({"alpha": RF.const(0), "gamma": RF.const(0)})
+    for name, value in expected.items():
+        if name not in info.kwargs or vkey(info.kwargs[name]) != vkey(value):
+            problems.append(f"Wigner.{info.cls} receives {name} = {info.kwargs.get(name)!r:.60}, expected {value!r}")
+    registered = [(vkey(k), vkey(v)) for d in registries for k, v in d.items]
     if registered != [(vkey(symbol), vkey(definition))]:
-        problems.append(f"angle_definitions receives {[(repr(k)[:40], repr(v)[:40]) for k, v in definitions.items]}, expected the one entry symbol -> definition returned by formulate_zeta_angle")
-    ctx.verdict(not problems, "R-TERM", f"{gen.qual}.__call__::wiring", tree.loc(call.node), "the DPD Wigner-d of state i in subsystem j uses zeta^i_{j(reference)} and registers its definition under the same symbol", problems or None)
+        problems.append(f"angle_definitions receives {[(repr(k)[:40], repr(v)[:40]) for d in registries for k, v in d.items]}, expected the one entry symbol -> definition returned by formulate_zeta_angle")
+    ctx.verdict(not problems, "R-TERM", f"{call.qual}::wiring", tree.loc(call.node), "the DPD Wigner-d of state i in subsystem j uses zeta^i_{j(reference)} and registers its definition under the same symbol", problems or None)
 
 
 def run(ctx: Check, tree: Tree) -> None:
